@@ -22,7 +22,8 @@ Record pout := {
   o_R : N; o_M : N; o_I : N; o_errs : N;
   o_summary : bytes;                   (* FWriteExtractorSummary, colour disabled *)
   o_sorted : list pm;                  (* matches ordered by (source position, line number) *)
-  o_order : list (bytes * N)           (* (source, line number) in consumption order *)
+  o_order : list (bytes * N);          (* (source, line number) in consumption order *)
+  o_cli : list bytes                   (* [] or [stdout of `rare filter`; stdout of `rare --color filter`] on the same files, 1 reader, 1 worker *)
 }.
 
 (* run-length form for long byte strings: [(hex, n)] = the bytes of hex repeated n times *)
@@ -79,9 +80,23 @@ Definition match_eqb (m : mtch) (o : pm) : bool :=
   key_eqb m o && bytes_eqb (e_line m) (o_line o) && bytes_eqb (o_line2 o) (o_line o) &&
   zl_eqb (e_ix m) (o_ix o) && zl_eqb (o_ix2 o) (o_ix o) && filter_ok o.
 Definition ord_eqb (m : mtch) (p : bytes * N) : bool := bytes_eqb (e_src m) (fst p) && (e_no m =? snd p)%N.
+(* default `rare filter` (cmd/filter.go, extraction {0}): one output line per input line whose match is not
+   empty, in input order (one reader at a time, one worker); with colour codes removed it is the line itself *)
+Definition nonempty_match (m : mtch) : bool :=
+  match e_ix m with lo :: hi :: _ => (lo <? hi)%Z | _ => false end.
+Definition cli_expect (ms : list mtch) : bytes :=
+  flat_map (fun m => e_line m ++ [10%N]) (filter nonempty_match ms).
+Definition cli_ok (ms : list mtch) (cli : list bytes) : bool :=
+  match cli with
+  | [] => true
+  | [plain; coloured] =>
+      bytes_eqb plain (cli_expect ms) &&
+      (if forallb (fun m => no_esc (e_line m)) ms then bytes_eqb (strip_sgr coloured) (cli_expect ms) else true)
+  | _ => false
+  end.
 Definition C02_check (i : pin) (o : pout) : bool :=
   let r := ref_of i in
-  cfg_pos i && negb (s_panic r) && o_completed o &&
+  cfg_pos i && negb (s_panic r) && o_completed o && cli_ok (s_matches r) (o_cli o) &&
   all2 match_eqb (s_matches r) (o_sorted o) &&
   (if i_ordered i then all2 ord_eqb (s_matches r) (o_order o) else true) &&
   (List.length (o_order o) =? List.length (o_sorted o))%nat.
